@@ -44,6 +44,7 @@ extern void (*p_exec_hook)(const char *file);	/* execvp in a child copy */
 extern void (*p_child_hook)(int pid);		/* called in the parent after fork */
 extern int p_fork_fail;
 extern void (*p_delivery_done_hook)(int tid, int sig);
+extern void (*p_reap_hook)(int pid, int status);		/* wait4 is returning this status */
 extern void (*p_delivery_hook)(int tid, int sig);	/* a handler is about to run in thread tid */
 
 int p_signal_deliverable(void);			/* current thread has an unblocked pending signal */
